@@ -97,7 +97,7 @@ func (vc *VC) staticCall(fr *frame, st *State, site ssa.Instruction, callee *ssa
 		if callee.Signature.Recv() != nil && len(callee.Params) > 0 {
 			vc.nilRecvCheck(fr, st, site, callee, args)
 		}
-		if fc.Extern {
+		if fc.Extern || fc.Opaque {
 			body = nil // trusted spec: the real body of an external is never looked at
 		}
 		return vc.contractCall(fr, st, site, fc, body, args, ptypes, resT)
@@ -643,7 +643,7 @@ func (vc *VC) contractCall(fr *frame, st *State, site ssa.Instruction, fc *FuncC
 		vc.guardCheckComp(fr, st, t.comp, t.idx, true, site)
 	}
 	oldHeap := st.heap.Clone()
-	allocates := len(fc.Allocates) > 0
+	allocates := len(fc.Allocates) > 0 || fc.Opaque
 	var freshComps []string
 	if body != nil {
 		sum := vc.summarize(body)
